@@ -235,7 +235,8 @@ def grep_task(task):
             sh.bad("select", "grep:rc%s:%s" % (r.rc, shape), "%s: exit status %s, stderr %r" % (core.shq(argv), r.rc, r.err[:200]),
                    res_replay(r), cls=cls)
             continue
-        exp = [ln for ln, vs in zip(lines, vals) if any(ev(t, v) for v in vs) != inv]
+        # a CR before the line feed is dropped by the line reader (by design, see C18)
+        exp = [ln.rstrip("\r") for ln, vs in zip(lines, vals) if any(ev(t, v) for v in vs) != inv]
         got = r.out.decode("latin-1").split("\n")
         if got and got[-1] == "":
             got.pop()
@@ -253,12 +254,70 @@ def grep_task(task):
     return sh
 
 
+def hostile_task(task):
+    """whatever the shape of the expression: no crash, no sanitizer report, an exit status"""
+    bindir, seed, n = task
+    import random
+    rng = random.Random(seed)
+    sh = Shard()
+    pool = [(cal.ORD_MIN + 150000 + i * 17, None) for i in range(12)]
+    stdin = ("\n".join("x %s y" % cal.Day(o).ymd() for o, _ in pool) + "\nno date here\n").encode()
+    for _ in range(n):
+        k = rng.randrange(12)
+        A = lambda: rand_atom(rng, pool, False)[4]
+        if k == 0:
+            e = "(" * rng.choice([1, 5, 200, 3000]) + A() + ")" * rng.choice([0, 1, 5, 200, 3000])
+        elif k == 1:
+            e = (" && " if rng.random() < .5 else " || ").join(A() for _ in range(rng.choice([50, 500, 3000])))
+        elif k == 2:
+            e = " && ".join("(%s || %s)" % (A(), A()) for _ in range(rng.choice([2, 6, 10, 12])))
+        elif k == 3:
+            e = "!" * rng.choice([1, 2, 7, 500]) + rng.choice(["", "(", " "]) + A()
+        elif k == 4:
+            e = rng.choice(["", " ", "&&", "||", "!", "(", ")", "()", "(&&)", "<", "=", "%", "%Y", "%Y=", "%Y<<1", "%a=", '%a="', "%a='Mon", '"', "'",
+                            "<>2012-01-01", "=>2012-01-01", "&& 2012-01-01", "2012-01-01 &&", "2012-01-01 || || 2012-01-02", "%zz=1",
+                            "%a=5", '%Y="x"', '%a="Miracleday"', "%Y=99999999999999999999", "%d=-1", "2012-01-01 2012-01-02"])
+        elif k == 5:
+            e = render(rng, rand_tree(rng, pool, False, 7))
+        elif k == 6:
+            e = render(rng, ("not", shaped_tree(rng, pool, False, "cnf")))
+        elif k == 7:
+            t = render(rng, rand_tree(rng, pool, False, 3))
+            i = rng.randrange(len(t) + 1)
+            e = t[:i] + rng.choice(["(", ")", "&", "|", "!", "&&&", "|||", "\x01", "\xff", '"', "%"]) + t[i:]
+        elif k == 8:
+            t = render(rng, rand_tree(rng, pool, False, 3))
+            e = t[: rng.randrange(len(t) + 1)]
+        elif k == 9:
+            e = " || ".join("(%s && %s && !(%s || %s))" % (A(), A(), A(), A()) for _ in range(rng.choice([3, 40])))
+        elif k == 10:
+            e = "%" + "".join(rng.choice("_OaAbBdYmjcCuwV%") for _ in range(rng.randrange(1, 30))) + rng.choice(OPS) + rng.choice(['"Mon"', "12", A()])
+        else:
+            e = "x" * rng.choice([255, 256, 4096, 70000]) + A()
+        argv = [str(bindir / "dgrep")] + (["-v"] if rng.random() < .3 else []) + ["--", e.encode("latin-1", "replace")]
+        r = run(argv, stdin=stdin, cpu=20, wall=120, max_out=1 << 20)
+        sh.procs += 1
+        cls = ("hostile", "k%d" % k)
+        if sh.check_san(r, "safety", "grep:hostile:k%d" % k):
+            continue
+        if r.rc not in (0, 1, 2):
+            sh.bad("safety", "grep:hostile:rc%s" % r.rc, "dgrep %r: exit status %s" % (e[:120], r.rc), res_replay(r), cls=cls)
+            continue
+        sh.ok("safety", cls + ("rc%d" % r.rc,))
+    return sh
+
+
+def _dispatch(t):
+    return grep_task(t[1]) if t[0] == "g" else hostile_task(t[1])
+
+
 def main(tier, seed):
     ctx = core.Ctx("C17", tier, seed)
     bindir = ctx.bin("san")
     quick = tier == "quick"
-    tasks = [(bindir, seed * 104729 + i, 60 if quick else 200) for i in range(96 if quick else 960)]
-    for sh in core.pmap(grep_task, tasks):
+    tasks = [("g", (bindir, seed * 104729 + i, 60 if quick else 200)) for i in range(96 if quick else 960)]
+    tasks += [("h", (bindir, seed * 15485863 + i, 40 if quick else 150)) for i in range(16 if quick else 64)]
+    for sh in core.pmap(_dispatch, tasks):
         ctx.merge(sh)
     ctx.rule = ("events = one dgrep [-v] EXPR run over 28 generated lines (dates or date-times inside free text, lines without a "
                 "date, lines with two dates, CR endings); EXPR rendered from a random tree over comparison atoms (dates, times, "
@@ -266,7 +325,7 @@ def main(tier, seed):
                 "needs, random blanks; shapes: left/right chains of && and ||, conjunctions of disjunctions, negated junctions, "
                 "double negation, && over || at depth, random trees to depth 4; oracle: ordinary Boolean evaluation of the tree on "
                 "each date of a line, line selected iff some date satisfies it, -v the complement; the whole output must equal the "
-                "selected lines, unchanged and in input order; ASan/UBSan + the dexpr probe (no negation flag left, no node "
+                "selected lines, unchanged and in input order; 'hostile' = malformed, truncated, 3000-deep, 3000-atom and 12-factor conjunction-of-disjunction expressions must end with an exit status and no report; ASan/UBSan + the dexpr probe (no negation flag left, no node "
                 "reachable twice after simplification) watch every run. distinct_nontrivial = distinct (value kind, depth, shape "
                 "features, -v, some/none selected)")
     ctx.assumptions = ["atoms compare like with like: date-only lines get date and specifier atoms, date-time lines also time and "
